@@ -245,9 +245,13 @@ def run(rep, tier, seed):
     # the permutations are interpreted with the lane kernels replaced by their contracts: the contracts themselves are
     # discharged here too (kernel mode, every lane), so that a defect inside a kernel the permutation uses is reported
     # by this check and not only by C02 / C11
-    from .. import kcheck
+    from .. import kcheck, matcheck
     kcheck.prove_field_contracts(rep, 'avx2', 4, seed=seed)
     kcheck.prove_field_contracts(rep, 'avx512', 8, seed=seed)
+    # ... and the dot / sparse / dense matrix kernels the rounds are made of (their own properties are C13 / C14)
+    from . import c13, c14
+    matcheck.run_family(rep, 'avx2', c13.PAT, 11, 'C06')
+    matcheck.run_family(rep, 'avx512', c14.PAT, 7, 'C06')
     rep.assumptions += ['the reference in the checker takes the round constants and matrices from the library tables (no independent source exists '
                         'in the repository): "the tables are the specified ones" is pinned by the known-answer tests, not by this check',
                         'two residue normal forms of total degree d that differ are different functions (Schwartz-Zippel; d << p)']
